@@ -53,9 +53,16 @@ pub fn same_outcome(got: &Result<String, liquid::Error>, want: &J) -> bool {
 pub fn run(rec: &J) -> Outcome {
     let nontrivial = rec.get("nt").and_then(|x| x.as_bool()).unwrap_or(true);
     let fail = |why: &str, extra: J| Outcome::fail(nontrivial, json!({"why": why, "info": extra}));
-    let src = match ast::block(&rec["prog"]) {
-        Ok(s) => s,
-        Err(e) => return fail("harness: cannot print program", json!(e)),
+    let src = if rec.get("src").is_some() {
+        match crate::val::dec_text(&rec["src"]) {
+            Some(s) => s,
+            None => return fail("harness: bad src", json!(null)),
+        }
+    } else {
+        match ast::block(&rec["prog"]) {
+            Ok(s) => s,
+            Err(e) => return fail("harness: cannot print program", json!(e)),
+        }
     };
     let parts = match partial_sources(&rec["parts"]) {
         Ok(p) => p,
